@@ -164,3 +164,11 @@ def features(case):
 
 def nontrivial(case):
     return case["filter"]["t"] in ("list", "dict", "str")
+
+
+MANIFEST = dict(
+    design_ref='6/C14',
+    text='Coq theorems for every filter and every recorded value (match_value = Ans (match_spec), hence never raises; lifted to the per-key conjunction; legacy TypeError witnesses refuted) over a hand-written model of _match_metadata_value / _operator_filter / match_against_recorded_metadata, for every fnmatch oracle; model tied to /repo on every run by an exhaustive small universe (~9k filter x value pairs) + random deeper pairs evaluated by the real matcher and by the model; direct predicate (never raises, equals the documented meaning, deterministic) on the implementation.',
+    note='Trusted: Coq kernel + vm_compute; hand-written model of Python ==/</<= on the metadata value domain (exact rationals for floats); fnmatch is an oracle (section variable); correspondence harness.',
+    technique='Coq proof (structural induction over filters) + exhaustive small-universe correspondence by vm_compute',
+)
